@@ -108,4 +108,17 @@ def notfound_return_expected : String :=
 set_option maxRecDepth 16384 in
 theorem notfound_return_src : notfound_return = notfound_return_expected := by decide
 
+/-- DoQ: the server name handed to the finder is the QUIC connection's TLS server name (DoT and DoH have their own facts). -/
+def doq_sni_expected : String :=
+  "&RequestInfo{ StartTime: time.Now(), TLSServerName: conn.ConnectionState().TLS.ServerName, }"
+set_option maxRecDepth 16384 in
+theorem doq_sni_src : doq_sni = doq_sni_expected := by decide
+/-- Both addresses reach the finder through `netutil.NetAddrToAddrPort` (unmaps IPv4-mapped addresses; model: `unmapIP`). -/
+theorem wrap_raddr_src : wrap_raddr = "netutil.NetAddrToAddrPort(rw.RemoteAddr())" := by decide
+theorem ri_laddr_src : ri_laddr = "netutil.NetAddrToAddrPort(laddr)" := by decide
+/-- The options are those of `req.IsEdns0()`: the last OPT record of the additional section (model: `ednsOfExtra`). -/
+theorem edns_opt_source_src : edns_opt_source = "req.IsEdns0()" := by decide
+/-- A device domain is the configured wildcard without its `*.` and nothing else (no case folding, no validation). -/
+theorem wildcard_domain_src : wildcard_domain = "w, \"*.\"" := by decide
+
 end Agd.Tie.C03
